@@ -19,6 +19,9 @@
 (* reset when a declaration is left.  L1: Verdict(c), per container.       *)
 (* Deviations: LeakWalkState (cur survives the end of a function: a        *)
 (* package-level `var g = T{}` after the constructor is accepted),         *)
+(* PruneReported (the operands of a reported expression are not visited),  *)
+(* CtorByBareName (u's own type T with constructors NewT, MakeT exempts    *)
+(* instantiations of d.T inside u.NewT),                                   *)
 (* CtorAnyPkg, NoUnalias, CtorAnyType (a constructor of one type is exempt *)
 (* for every annotated type of its package).                               *)
 (***************************************************************************)
@@ -32,7 +35,7 @@ vars == <<prog, fi, ci, ph, cur, diags>>
 
 Kinds  == {"ctor1", "ctor2", "other", "pmeth", "ometh", "init", "pkgvar", "pkgdecl"}
 Stmts  == {"lit", "addrLit", "elidedVal", "elidedPtr", "elidedMap", "new", "varZero", "varPtr", "varBlank", "onU",
-           "lit2", "new2", "varZero2",
+           "lit2", "new2", "varZero2", "nestNewInLit2",   \* d.T2{In: new(d.T)}: an instantiation of T inside a (reported) literal of T2
            "litRec", "newRec", "varRec"}   \* on d.Rec, an exported alias of the unexported type rec with `@constructor newRec` (iff T is annotated)   \* the same on T2, a second type of d with `@constructor NewT2` (iff T is annotated)
 Nests  == {"none", "if", "else", "for", "range", "switch", "select", "funclit", "defer", "go", "label",
            "funcassign", "funcvar", "funcarg", "funcfield", "block", "ifinit", "typeswitch"}
@@ -48,7 +51,7 @@ Cont(k, s, n, sp) == [kind |-> k, stmt |-> s, nest |-> n, sp |-> sp]
 Valid(c, pkg) ==
   /\ (c.kind = "pmeth" => pkg = "d")
   /\ (c.kind = "pkgdecl" => c.stmt \in {"lit", "addrLit", "new", "varZero", "varPtr", "elidedVal"} /\ c.nest = "none")
-  /\ (c.stmt \in {"lit2", "new2", "varZero2", "litRec", "newRec", "varRec"} => c.sp = "direct")
+  /\ (c.stmt \in {"lit2", "new2", "varZero2", "nestNewInLit2", "litRec", "newRec", "varRec"} => c.sp = "direct")
   /\ (c.stmt = "onU" => c.sp \in {"direct", "fnalias"})
   /\ (c.sp = "fnalias" => c.kind \in {"ctor1", "other", "init", "ometh"})
   /\ (c.sp = "paren" => c.stmt \in {"new", "varZero", "varPtr", "varBlank"})
@@ -57,9 +60,9 @@ Valid(c, pkg) ==
 FnName(c) == CASE c.kind = "ctor1" -> "NewT" [] c.kind = "ctor2" -> "MakeT" [] c.kind = "init" -> "init"
                [] c.kind \in {"pkgvar", "pkgdecl"} -> "" [] OTHER -> "fn"
 
-CtorCode(s) == CASE s \in {"lit", "addrLit", "elidedVal", "elidedPtr", "elidedMap", "lit2", "litRec"} -> "CTOR01"
+CtorCode(s) == CASE s \in {"lit", "addrLit", "elidedVal", "elidedPtr", "elidedMap", "lit2", "nestNewInLit2", "litRec"} -> "CTOR01"
                  [] s \in {"new", "new2", "newRec"} -> "CTOR02" [] s \in {"varZero", "varZero2", "varRec"} -> "CTOR03" [] OTHER -> "none"
-OnT2(s) == s \in {"lit2", "new2", "varZero2", "litRec", "newRec", "varRec"}   \* not a type NewT / MakeT construct
+OnT2(s) == s \in {"lit2", "new2", "varZero2", "nestNewInLit2", "litRec", "newRec", "varRec"}   \* not a type NewT / MakeT construct
 
 Verdict(c, ann, pkg) ==
   IF /\ ann.ctors # <<>>
@@ -68,7 +71,10 @@ Verdict(c, ann, pkg) ==
   THEN CtorCode(c.stmt) ELSE "none"     \* NewT / MakeT are constructors of T, not of T2
 
 Keys(p) == UNION {{<<f, i>> : i \in 1..Len(p.files[f])} : f \in 1..Len(p.files)}
+\* the instantiation nested inside the statement's own expression (one more verdict on the same statement)
+Inner(c) == IF c.stmt = "nestNewInLit2" THEN [c EXCEPT !.stmt = "new"] ELSE [c EXCEPT !.stmt = "onU"]
 L1(p) == {<<k[1], k[2], Verdict(p.files[k[1]][k[2]], p.ann, p.pkg)>> : k \in {k \in Keys(p) : Verdict(p.files[k[1]][k[2]], p.ann, p.pkg) # "none"}}
+         \cup {<<k[1], k[2], Verdict(Inner(p.files[k[1]][k[2]]), p.ann, p.pkg)>> : k \in {k \in Keys(p) : Verdict(Inner(p.files[k[1]][k[2]]), p.ann, p.pkg) # "none"}}
 
 (***************************************************************************)
 (* Program spaces (enumerated lazily in Init)                              *)
@@ -129,18 +135,24 @@ EnterDecl ==
   /\ ph' = "visit"
   /\ UNCHANGED <<prog, fi, ci, diags>>
 
+TwinCtors == {"NewT", "MakeT"}
 Seen(c) == ~("NoUnalias" \in Deviations /\ c.sp \in {"alias", "alias3", "chain", "fnalias"})
 VisitVerdict(c) ==
   LET code == CtorCode(c.stmt)
       ownPkg == prog.pkg = "d" \/ "CtorAnyPkg" \in Deviations
       ctorsOfType == IF c.stmt \in {"litRec", "newRec", "varRec"} THEN {"newRec"}
                      ELSE IF OnT2(c.stmt) /\ ~("CtorAnyType" \in Deviations) THEN {"NewT2"} ELSE Range(prog.ann.ctors)
-      exempt == ownPkg /\ cur \in ctorsOfType
+      \* package u declares a type of its own that is also called T, with constructors NewT and MakeT (TwinCtors)
+      twinExempt == "CtorByBareName" \in Deviations /\ prog.pkg = "u" /\ cur \in TwinCtors
+      exempt == (ownPkg /\ cur \in ctorsOfType) \/ twinExempt
   IN IF prog.ann.ctors = <<>> \/ code = "none" \/ ~Seen(c) \/ exempt THEN "none" ELSE code
 
 Visit ==
   /\ ph = "visit"
-  /\ LET v == VisitVerdict(CurC) IN diags' = IF v = "none" THEN diags ELSE diags \cup {<<fi, ci, v>>}
+  /\ LET v == VisitVerdict(CurC)
+         \* the walk goes on into the operands of a reported expression (PruneReported: it does not)
+         w == IF "PruneReported" \in Deviations /\ v # "none" THEN "none" ELSE VisitVerdict(Inner(CurC))
+     IN diags' = diags \cup (IF v = "none" THEN {} ELSE {<<fi, ci, v>>}) \cup (IF w = "none" THEN {} ELSE {<<fi, ci, w>>})
   /\ ph' = "leave"
   /\ UNCHANGED <<prog, fi, ci, cur>>
 
